@@ -215,8 +215,11 @@ impl FmtAttribute {
         fields: &syn::Fields,
     ) -> Option<(Expr, syn::Ident)> {
         self.transparent_call().map(|(expr, trait_ident)| {
+            // Only a field named inside the literal itself is the field; inside an argument
+            // expression its name is a reference to it (which matters for `{:p}`).
             let expr = if let Some(field) = fields
                 .fmt_args_idents()
+                .filter(|_| self.args.is_empty())
                 .find(|field| expr == *field || expr == field.unraw())
             {
                 field.into()
